@@ -20,101 +20,180 @@ Fixpoint nresp (k : list frame) : nat :=
 Definition timeouts_late (s : st) : Prop :=
   forall t, In (t, MTimeout) (done s) -> deadline s <= t.
 
+(* A call is "waited" when it was issued while the client was still opening: until the open result completes
+   the wait is bounded by DispatchMethodCall's own (outer) timer; when the open result completes that timer is
+   cancelled and the call is dispatched (unless the outer timer already completed it), from then on the
+   timeout sink's timer bounds it like any other call. *)
 Record Inv (r : Z) (s : st) : Prop := {
   inv_once : (nresp (stack s) + length (done s) <= 1)%nat;
-  inv_idle : ph s <> Live -> stack s = [] /\ done s = [] /\ tmr s = TNone;
+  inv_idle : ph s <> Live -> stack s = [] /\ tmr s = TNone /\ (waited s = false -> done s = []);
+  inv_fresh : ph s = NotIssued -> waited s = false /\ otmr s = TNone;
+  inv_wopen : ph s = WaitOpen -> waited s = true;
   inv_arm : forall dl, tmr s = TArmed dl -> dl = ceil_r r (deadline s) /\ ph s = Live;
+  inv_oarm : forall dl, otmr s = TArmed dl -> dl = ceil_r r (deadline s) /\ waited s = true /\ ph s = WaitOpen;
   inv_late : timeouts_late s;
   inv_past : forall t m, In (t, m) (done s) -> t <= now s;
 }.
 
+Lemma inv_len r s : Inv r s -> (length (done s) <= 1)%nat.
+Proof. intros I. pose proof (inv_once r s I). lia. Qed.
+
 Lemma inv_init r t : Inv r (init t).
 Proof.
-  constructor; cbn; try lia; try (intros; discriminate); try (intros ? []); try (intros ? ? []).
+  constructor; cbn.
+  - lia.
   - intros _. repeat split.
+  - intros _. split; reflexivity.
+  - intros X. discriminate X.
+  - intros dl X. discriminate X.
+  - intros dl X. discriminate X.
+  - intros tt [].
+  - intros tt mm [].
 Qed.
 
-Lemma enter_inv r s : 0 < r -> ph s = WaitOpen -> stack s = [] -> done s = [] -> tmr s = TNone -> Inv r (enter r s).
+Lemma enter_inv r s : 0 < r -> ph s = WaitOpen -> stack s = [] -> done s = [] -> tmr s = TNone ->
+  (forall dl, otmr s <> TArmed dl) -> Inv r (enter r s).
 Proof.
-  intros Hr Hp Hs Hd Ht. unfold enter.
+  intros Hr Hp Hs Hd Ht Ho. unfold enter.
   destruct (Z.ltb_spec (deadline s) (now s)) as [L|L].
-  - constructor; cbn; rewrite ?Hd; cbn.
+  - constructor; unfold timeouts_late; cbn; rewrite ?Hd; cbn.
     + lia.
     + intros X. exfalso. apply X. reflexivity.
+    + intros X. discriminate X.
+    + intros X. discriminate X.
     + intros dl' X. discriminate X.
+    + intros dl' X. exfalso. exact (Ho dl' X).
     + intros tt [].
     + intros tt mm [].
-  - constructor; cbn; rewrite ?Hd; cbn.
+  - constructor; unfold timeouts_late; cbn; rewrite ?Hd; cbn.
     + lia.
     + intros X. exfalso. apply X. reflexivity.
+    + intros X. discriminate X.
+    + intros X. discriminate X.
     + intros dl' X. inversion X; subst. split; reflexivity.
+    + intros dl' X. exfalso. exact (Ho dl' X).
     + intros tt [].
     + intros tt mm [].
 Qed.
 
 Lemma step_inv r s l s' : 0 < r -> Inv r s -> step r s l = Some s' -> Inv r s'.
 Proof.
-  intros Hr I H. destruct l as [T opened| |t| | | |m]; cbn in H.
+  intros Hr I H. destruct l as [T opened| |t| | | | |m]; cbn in H.
   - (* Issue *)
     destruct (ph s) eqn:P; try discriminate. destruct (Z.leb_spec T 0); [discriminate|].
-    inversion H; subst; clear H. destruct opened.
-    + apply enter_inv; try reflexivity; assumption.
-    + constructor; cbn.
+    destruct opened; inversion H; subst; clear H.
+    + apply enter_inv; cbn; try reflexivity; try assumption.
+      intros dl X. discriminate X.
+    + constructor; unfold timeouts_late, deadline; cbn.
       * lia.
-      * intros _. repeat split.
+      * intros _. split; [reflexivity|]. split; [reflexivity|]. intros X. discriminate X.
+      * intros X. discriminate X.
+      * intros _. reflexivity.
       * intros dl X. discriminate X.
+      * intros dl X. inversion X; subst. split; [reflexivity|]. split; reflexivity.
       * intros tt [].
       * intros tt mm [].
   - (* OpenDone *)
-    destruct (ph s) eqn:P; try discriminate. inversion H; subst; clear H.
-    destruct (inv_idle r s I) as (A & B & C); [congruence|]. apply enter_inv; assumption.
+    destruct (ph s) eqn:P; try discriminate.
+    destruct (inv_idle r s I) as (A & B & C); [congruence|].
+    pose proof (inv_once r s I) as O. rewrite A in O.
+    pose proof (inv_late r s I) as La. pose proof (inv_past r s I) as Pa. unfold timeouts_late, deadline in La.
+    destruct (done s) as [|y d] eqn:Ds; inversion H; subst; clear H.
+    + (* dispatched, outer timer cancelled *)
+      apply enter_inv; cbn; try reflexivity; try assumption.
+      intros dl X. destruct (otmr s); discriminate X.
+    + (* already completed by the outer timer while waiting for the open: not dispatched at all *)
+      constructor; unfold timeouts_late, deadline; cbn.
+      * exact O.
+      * intros X. exfalso. apply X. reflexivity.
+      * intros X. discriminate X.
+      * intros X. discriminate X.
+      * intros dl X. discriminate X.
+      * intros dl X. destruct (otmr s); discriminate X.
+      * exact La.
+      * exact Pa.
   - (* Tick *)
     destruct (Z.ltb_spec t (now s)); [discriminate|]. inversion H; subst; clear H.
-    destruct I as [I1 I2 I3 I4 I5]. constructor; cbn; try assumption.
-    intros t' m Hin. specialize (I5 _ _ Hin). lia.
+    destruct I as [I2 I3 I4 I5 I6 I7 I8 I9]. constructor; cbn; try assumption.
+    intros t' m Hin. specialize (I9 _ _ Hin). lia.
   - (* Fire *)
     destruct (tmr s) as [|dl| |] eqn:Tm; try discriminate.
     destruct (Z.ltb_spec (now s) dl); [discriminate|]. inversion H; subst; clear H.
-    destruct I as [I1 I2 I3 I4 I5]. constructor; cbn; try assumption.
-    + intros X. destruct (I3 dl Tm) as [_ L]. congruence.
+    destruct I as [I2 I3 I4 I5 I6 I7 I8 I9]. constructor; cbn; try assumption.
+    + intros X. destruct (I6 dl Tm) as [_ L]. congruence.
     + intros dl' X. discriminate X.
+  - (* OFire: only while the call waits for the open *)
+    destruct (otmr s) as [|dl| |] eqn:Om; try discriminate.
+    destruct (Z.ltb_spec (now s) dl) as [L|L]; [discriminate|]. inversion H; subst; clear H.
+    destruct I as [I2 I3 I4 I5 I6 I7 I8 I9]. destruct (I7 dl Om) as (Edl & W & Pw).
+    destruct I3 as (A & B & _); [congruence|]. rewrite A in I2.
+    constructor; unfold timeouts_late, deadline in *; cbn; rewrite ?A.
+    + destruct (done s); cbn in *; lia.
+    + intros X. split; [reflexivity|]. split; [exact B|]. intros Y. congruence.
+    + intros X. congruence.
+    + exact I5.
+    + exact I6.
+    + intros dl' X. discriminate X.
+    + intros tt Hin. destruct (done s) as [|y d] eqn:Ds.
+      * destruct Hin as [E|[]]. inversion E; subst. pose proof (ceil_r_ge r (t0 s + tmo s) Hr). lia.
+      * apply I8. exact Hin.
+    + intros tt mm Hin. destruct (done s) as [|y d] eqn:Ds.
+      * destruct Hin as [E|[]]. inversion E; subst. lia.
+      * apply (I9 tt mm). exact Hin.
   - (* Push *)
     destruct (ph s) eqn:P; try discriminate. inversion H; subst; clear H.
-    destruct I as [I1 I2 I3 I4 I5]. constructor; cbn; try assumption.
-    intros X. congruence.
+    destruct I as [I2 I3 I4 I5 I6 I7 I8 I9]. constructor; cbn; try assumption.
+    all: intros X; congruence.
   - (* Unpush *)
     destruct (ph s) eqn:P; try discriminate. destruct (stack s) as [|f k] eqn:K; try discriminate.
     destruct f; try discriminate. inversion H; subst; clear H.
-    destruct I as [I1 I2 I3 I4 I5]. rewrite K in I1. constructor; cbn in *; try assumption.
-    intros X. congruence.
+    destruct I as [I2 I3 I4 I5 I6 I7 I8 I9]. rewrite K in I2. constructor; cbn in *; try assumption.
+    all: intros X; congruence.
   - (* Pop *)
     destruct (ph s) eqn:P; try discriminate.
     destruct (early m s) eqn:G; [discriminate|]. unfold early in G.
     destruct (stack s) as [|f k] eqn:K; [inversion H; subst; exact I|].
-    destruct I as [I1 I2 I3 I4 I5]. rewrite K in I1.
-    destruct f; inversion H; subst; clear H.
+    destruct I as [I2 I3 I4 I5 I6 I7 I8 I9]. rewrite K in I2.
+    destruct f.
     + (* FResp: completion *)
-      constructor; unfold timeouts_late, deadline in *; cbn in *.
-      * lia.
-      * intros X. congruence.
-      * intros dl0 X0. destruct (I3 dl0 X0) as [Y Y2]. split; [exact Y|first [reflexivity|exact Y2|exact P]].
-      * intros t [E|Hin]; [|now apply I4].
-        inversion E; subst. destruct (Z.ltb_spec (now s) (t0 s + tmo s)); [discriminate|]. lia.
-      * intros t m' [E|Hin]; [inversion E; lia|eauto].
+      destruct (waited s) eqn:W; inversion H; subst; clear H.
+      * (* waited: the inner result completes the caller (the result is still open: the frame is on the stack) *)
+        constructor; unfold timeouts_late, deadline in *; cbn in *.
+        -- destruct (done s); cbn in *; lia.
+        -- intros X. congruence.
+        -- intros X. congruence.
+        -- intros _. reflexivity.
+        -- intros dl0 X0. destruct (I6 dl0 X0) as [Y Y2]. split; [exact Y|first [reflexivity|exact Y2|exact P]].
+        -- intros dl0 X0. destruct (I7 dl0 X0) as (_ & _ & Y). congruence.
+        -- intros tt Hin. destruct (done s) as [|y d] eqn:Ds.
+           ++ destruct Hin as [E|[]]. inversion E; subst.
+              destruct (Z.ltb_spec (now s) (t0 s + tmo s)); [discriminate|]. lia.
+           ++ apply I8. exact Hin.
+        -- intros tt mm Hin. destruct (done s) as [|y d] eqn:Ds.
+           ++ destruct Hin as [E|[]]. inversion E; subst. lia.
+           ++ apply (I9 tt mm). exact Hin.
+      * constructor; unfold timeouts_late, deadline in *; cbn in *.
+        -- lia.
+        -- intros X. congruence.
+        -- intros X. congruence.
+        -- intros X. congruence.
+        -- intros dl0 X0. destruct (I6 dl0 X0) as [Y Y2]. split; [exact Y|first [reflexivity|exact Y2|exact P]].
+        -- intros dl0 X0. destruct (I7 dl0 X0) as (_ & _ & Y). congruence.
+        -- intros t [E|Hin]; [|now apply I8].
+           inversion E; subst. destruct (Z.ltb_spec (now s) (t0 s + tmo s)); [discriminate|]. lia.
+        -- intros t m' [E|Hin]; [inversion E; lia|eauto].
     + (* FTimeout: cancel *)
-      constructor; unfold timeouts_late, deadline in *; cbn in *.
-      * lia.
+      inversion H; subst; clear H.
+      constructor; unfold timeouts_late, deadline in *; cbn in *; try assumption.
+      * intros X. congruence.
+      * intros X. congruence.
       * intros X. congruence.
       * intros dl X. destruct (tmr s); discriminate X.
-      * exact I4.
-      * exact I5.
+      * intros dl X. destruct (I7 dl X) as (_ & _ & Y). congruence.
     + (* FLower *)
-      constructor; unfold timeouts_late, deadline in *; cbn in *.
-      * lia.
-      * intros X. congruence.
-      * intros dl0 X0. destruct (I3 dl0 X0) as [Y Y2]. split; [exact Y|first [reflexivity|exact Y2|exact P]].
-      * exact I4.
-      * exact I5.
+      inversion H; subst; clear H.
+      constructor; unfold timeouts_late, deadline in *; cbn in *; try assumption.
+      intros X. congruence.
 Qed.
 
 Lemma run_inv r : 0 < r -> forall ls s s', Inv r s -> run r s ls = Some s' -> Inv r s'.
@@ -130,23 +209,31 @@ Proof. induction ls1 as [|l ls1 IH]; intros s ls2; cbn; [reflexivity|]. destruct
 
 (* ---- exactly once / late arrivals are inert ---------------------------------------------------- *)
 Lemma at_most_once r t ls s : 0 < r -> run r (init t) ls = Some s -> (length (done s) <= 1)%nat.
-Proof. intros Hr H. pose proof (run_inv r Hr ls _ _ (inv_init r t) H) as I. pose proof (inv_once r s I). lia. Qed.
+Proof. intros Hr H. pose proof (run_inv r Hr ls _ _ (inv_init r t) H) as I. exact (inv_len r s I). Qed.
 
 Lemma step_done_inert r s l s' x : Inv r s -> step r s l = Some s' -> done s = [x] -> done s' = [x].
 Proof.
-  intros I H D. destruct l as [T opened| |t| | | |m]; cbn in H.
-  - destruct (ph s) eqn:P; try discriminate. destruct (inv_idle r s I) as (_ & B & _); congruence.
-  - destruct (ph s) eqn:P; try discriminate. destruct (inv_idle r s I) as (_ & B & _); congruence.
+  intros I H D. destruct l as [T opened| |t| | | | |m]; cbn in H.
+  - destruct (ph s) eqn:P; try discriminate. exfalso.
+    destruct (inv_fresh r s I P) as [W _]. destruct (inv_idle r s I) as (_ & _ & B); [congruence|].
+    rewrite (B W) in D. discriminate D.
+  - destruct (ph s) eqn:P; try discriminate. rewrite D in H. inversion H; subst. reflexivity.
   - destruct (Z.ltb_spec t (now s)); [discriminate|]. inversion H; subst. assumption.
   - destruct (tmr s); try discriminate. destruct (now s <? dl); [discriminate|]. inversion H; subst. assumption.
+  - destruct (otmr s); try discriminate. destruct (now s <? dl); [discriminate|]. inversion H; subst. cbn.
+    rewrite D. reflexivity.
   - destruct (ph s); try discriminate. inversion H; subst. assumption.
   - destruct (ph s); try discriminate. destruct (stack s) as [|f k]; try discriminate.
     destruct f; try discriminate. inversion H; subst. assumption.
   - destruct (ph s); try discriminate.
     destruct (early m s); [discriminate|].
-    pose proof (inv_once r s I) as O. rewrite D in O. cbn in O.
     destruct (stack s) as [|f k] eqn:K; [inversion H; subst; assumption|].
-    destruct f; inversion H; subst; cbn in *; try assumption. lia.
+    destruct f.
+    + destruct (waited s) eqn:W; inversion H; subst; cbn.
+      * rewrite D. reflexivity.
+      * exfalso. pose proof (inv_once r s I) as O. rewrite K, D in O. cbn in O. lia.
+    + inversion H; subst; cbn. assumption.
+    + inversion H; subst; cbn. assumption.
 Qed.
 
 Lemma run_done_inert r : 0 < r -> forall ls s s' x, Inv r s -> run r s ls = Some s' -> done s = [x] -> done s' = [x].
@@ -157,15 +244,19 @@ Proof.
     eapply IH; [eapply step_inv; eassumption| eassumption |]. eapply step_done_inert; eassumption.
 Qed.
 
-Lemma run_done_nonempty r : 0 < r -> forall ls s s', Inv r s -> run r s ls = Some s' -> done s <> [] -> done s' <> [].
+Lemma done_single r s : Inv r s -> done s <> [] -> exists x, done s = [x].
 Proof.
-  intros Hr ls s s' I H D. destruct (done s) as [|x d] eqn:Ds; [congruence|].
-  assert (d = []).
-  { pose proof (inv_once r s I) as O. rewrite Ds in O. cbn in O. destruct d; [reflexivity|cbn in O; lia]. }
-  subst d. rewrite (run_done_inert r Hr ls s s' x I H Ds). discriminate.
+  intros I D. pose proof (inv_len r s I) as O. destruct (done s) as [|x d]; [congruence|].
+  destruct d; [exists x; reflexivity|cbn in O; lia].
 Qed.
 
-(* ---- TimeoutError is never early; the timer path satisfies the guard ----------------------------- *)
+Lemma run_done_nonempty r : 0 < r -> forall ls s s', Inv r s -> run r s ls = Some s' -> done s <> [] -> done s' <> [].
+Proof.
+  intros Hr ls s s' I H D. destruct (done_single r s I D) as [x Ds].
+  rewrite (run_done_inert r Hr ls s s' x I H Ds). discriminate.
+Qed.
+
+(* ---- TimeoutError is never early; the timer paths satisfy the guard ------------------------------ *)
 Lemma timeout_not_early r t ls s tc : 0 < r -> run r (init t) ls = Some s -> In (tc, MTimeout) (done s) -> t0 s + tmo s <= tc.
 Proof. intros Hr H Hin. pose proof (run_inv r Hr ls _ _ (inv_init r t) H) as I. exact (inv_late r s I tc Hin). Qed.
 
@@ -177,11 +268,115 @@ Proof.
   pose proof (ceil_r_ge r (deadline s) Hr). unfold deadline in *. cbn. lia.
 Qed.
 
+Lemma ofire_consistent r s s' : 0 < r -> Inv r s -> step r s OFire = Some s' -> deadline s' <= now s' /\ ph s' = WaitOpen.
+Proof.
+  intros Hr I H. cbn in H. destruct (otmr s) as [|dl| |] eqn:Om; try discriminate.
+  destruct (Z.ltb_spec (now s) dl); [discriminate|]. inversion H; subst; clear H. cbn.
+  destruct (inv_oarm r s I dl Om) as (E & _ & P). split; [|assumption].
+  pose proof (ceil_r_ge r (deadline s) Hr). unfold deadline in *. cbn. lia.
+Qed.
+
+(* when the open result completes, the outer timer is out of the game, and a call that was completed (by the
+   outer timer) while it waited for the open is not dispatched any more *)
+Lemma opendone_no_dispatch r s s' : ph s = WaitOpen -> done s <> [] -> step r s OpenDone = Some s' ->
+  stack s' = [] /\ tmr s' = TNone /\ done s' = done s.
+Proof.
+  intros P D H. cbn in H. rewrite P in H. destruct (done s) as [|y d] eqn:Ds; [congruence|].
+  inversion H; subst; clear H. cbn. repeat split.
+Qed.
+
+Lemma opendone_disarms_outer r s s' : step r s OpenDone = Some s' -> forall dl, otmr s' <> TArmed dl.
+Proof.
+  intros H dl X. cbn in H. destruct (ph s); try discriminate.
+  destruct (done s); inversion H; subst; clear H.
+  - unfold enter in X. cbn in X. destruct (_ <? _) in X; cbn in X; destruct (otmr s); discriminate X.
+  - cbn in X. destruct (otmr s); discriminate X.
+Qed.
+
+(* ---- after Issue the call's identity (waited, t0, tmo) is frozen ------------------------------- *)
+Lemma step_frozen r s l s' : ph s <> NotIssued -> step r s l = Some s' ->
+  waited s' = waited s /\ t0 s' = t0 s /\ tmo s' = tmo s /\ ph s' <> NotIssued.
+Proof.
+  intros Pn H. destruct l as [T opened| |t| | | | |m]; cbn in H.
+  - destruct (ph s); try discriminate. congruence.
+  - destruct (ph s); try discriminate. destruct (done s); inversion H; subst.
+    + unfold enter. cbn. destruct (_ <? _); cbn; repeat split; discriminate.
+    + cbn. repeat split; discriminate.
+  - destruct (t <? now s); [discriminate|]. inversion H; subst. cbn. repeat split; assumption.
+  - destruct (tmr s); try discriminate. destruct (now s <? dl); [discriminate|]. inversion H; subst. cbn. repeat split; assumption.
+  - destruct (otmr s); try discriminate. destruct (now s <? dl); [discriminate|]. inversion H; subst. cbn. repeat split; assumption.
+  - destruct (ph s) eqn:P; try discriminate. inversion H; subst. cbn. repeat split; congruence.
+  - destruct (ph s) eqn:P; try discriminate. destruct (stack s) as [|f k]; try discriminate.
+    destruct f; try discriminate. inversion H; subst. cbn. repeat split; congruence.
+  - destruct (ph s) eqn:P; try discriminate. destruct (early m s); [discriminate|].
+    destruct (stack s) as [|f k]; [inversion H; subst; repeat split; congruence|].
+    destruct f.
+    + destruct (waited s) eqn:W; inversion H; subst; cbn; repeat split; congruence.
+    + inversion H; subst; cbn; repeat split; congruence.
+    + inversion H; subst; cbn; repeat split; congruence.
+Qed.
+
+Lemma run_frozen r : forall ls s s', ph s <> NotIssued -> run r s ls = Some s' ->
+  waited s' = waited s /\ t0 s' = t0 s /\ tmo s' = tmo s /\ ph s' <> NotIssued.
+Proof.
+  induction ls as [|l ls IH]; intros s s' Pn H; cbn in H.
+  - inversion H; subst. repeat split; assumption.
+  - destruct (step r s l) as [s1|] eqn:E; [|discriminate].
+    destruct (step_frozen r s l s1 Pn E) as (A & B & C & D).
+    destruct (IH s1 s' D H) as (A' & B' & C' & D'). repeat split; congruence.
+Qed.
+
+(* ---- a call that waits for the open and has not completed has its outer timer armed at the rounded
+        deadline: preserved by EVERY fine-grained step, from any state ------------------------------ *)
+Definition WShape (r : Z) (s : st) : Prop :=
+  ph s = WaitOpen -> done s <> [] \/ otmr s = TArmed (ceil_r r (deadline s)).
+
+Lemma wshape_init r t : WShape r (init t).
+Proof. intros W. cbn in W. discriminate W. Qed.
+
+Lemma step_wshape r s l s' : WShape r s -> step r s l = Some s' -> WShape r s'.
+Proof.
+  intros Sh H. destruct l as [T opened| |t| | | | |m]; cbn in H.
+  - destruct (ph s); try discriminate. destruct (T <=? 0); [discriminate|].
+    destruct opened; inversion H; subst; clear H.
+    + unfold enter. cbn. destruct (_ <? _); intros W; cbn in W; discriminate W.
+    + intros _. right. reflexivity.
+  - destruct (ph s); try discriminate. destruct (done s); inversion H; subst; clear H.
+    + unfold enter. cbn. destruct (_ <? _); intros W; cbn in W; discriminate W.
+    + intros W. cbn in W. discriminate W.
+  - destruct (t <? now s); [discriminate|]. inversion H; subst; clear H.
+    intros W; cbn in W; destruct (Sh W) as [D|O]; [left|right]; assumption.
+  - destruct (tmr s); try discriminate. destruct (now s <? dl); [discriminate|]. inversion H; subst; clear H.
+    intros W; cbn in W; destruct (Sh W) as [D|O]; [left|right]; assumption.
+  - destruct (otmr s); try discriminate. destruct (now s <? dl); [discriminate|]. inversion H; subst; clear H.
+    intros _. left. cbn. destruct (done s); discriminate.
+  - destruct (ph s) eqn:P; try discriminate. inversion H; subst; clear H.
+    intros W. cbn in W. congruence.
+  - destruct (ph s) eqn:P; try discriminate. destruct (stack s) as [|f k]; try discriminate.
+    destruct f; try discriminate. inversion H; subst; clear H.
+    intros W. cbn in W. congruence.
+  - destruct (ph s) eqn:P; try discriminate. destruct (early m s); [discriminate|].
+    destruct (stack s) as [|f k]; [inversion H; subst; exact Sh|].
+    destruct f.
+    + destruct (waited s) eqn:Ws; inversion H; subst; clear H; intros W; cbn in W; congruence.
+    + inversion H; subst; clear H. intros W. cbn in W. congruence.
+    + inversion H; subst; clear H. intros W. cbn in W. congruence.
+Qed.
+
+Lemma run_wshape r : forall ls s s', WShape r s -> run r s ls = Some s' -> WShape r s'.
+Proof.
+  induction ls as [|l ls IH]; intros s s' Sh H; cbn in H.
+  - inversion H; subst. assumption.
+  - destruct (step r s l) as [s1|] eqn:E; [|discriminate]. eapply IH; [|eassumption]. eapply step_wshape; eassumption.
+Qed.
+
 (* ---- coarse labels: responses are always drained completely (no handler raises or swallows) ---- *)
 Inductive clabel :=
-| CIssue (T : Z) (opened : bool) | COpenDone | CTick (t : Z) | CFire | CPush | CUnpush | CDrain (m : mkind).
+| CIssue (T : Z) (opened : bool) | COpenDone | CTick (t : Z) | CFire | COFire | CPush | CUnpush | CDrain (m : mkind).
 
 Definition expired_entry (s : st) : bool := deadline s <? now s.
+(* the caller's result is still open: only then does the open result's callback dispatch the call *)
+Definition undone (s : st) : bool := match done s with [] => true | _ => false end.
 
 Definition cstep (r : Z) (s : st) (c : clabel) : option st :=
   match c with
@@ -192,11 +387,12 @@ Definition cstep (r : Z) (s : st) (c : clabel) : option st :=
       end
   | COpenDone =>
       match step r s OpenDone with
-      | Some s1 => if expired_entry s1 then run r s1 (drain_all s1 MTimeout) else Some s1
+      | Some s1 => if undone s && expired_entry s1 then run r s1 (drain_all s1 MTimeout) else Some s1
       | None => None
       end
   | CTick t => step r s (Tick t)
   | CFire => match step r s Fire with Some s1 => run r s1 (drain_all s1 MTimeout) | None => None end
+  | COFire => step r s OFire
   | CPush => step r s Push
   | CUnpush => step r s Unpush
   | CDrain m => match ph s with Live => run r s (drain_all s m) | _ => None end
@@ -216,10 +412,11 @@ Definition expand (r : Z) (s : st) (c : clabel) : list label :=
                         | Some s1 => if opened && expired_entry s1 then drain_all s1 MTimeout else []
                         | None => [] end
   | COpenDone => OpenDone :: match step r s OpenDone with
-                             | Some s1 => if expired_entry s1 then drain_all s1 MTimeout else []
+                             | Some s1 => if undone s && expired_entry s1 then drain_all s1 MTimeout else []
                              | None => [] end
   | CTick t => [Tick t]
   | CFire => Fire :: match step r s Fire with Some s1 => drain_all s1 MTimeout | None => [] end
+  | COFire => [OFire]
   | CPush => [Push]
   | CUnpush => [Unpush]
   | CDrain m => drain_all s m
@@ -227,13 +424,14 @@ Definition expand (r : Z) (s : st) (c : clabel) : list label :=
 
 Lemma cstep_refines r s c s' : cstep r s c = Some s' -> run r s (expand r s c) = Some s'.
 Proof.
-  destruct c as [T opened| |t| | | |m]; cbn [cstep expand]; intros H.
+  destruct c as [T opened| |t| | | | |m]; cbn [cstep expand]; intros H.
   - cbn [run]. destruct (step r s (Issue T opened)) as [s1|]; [|discriminate].
     destruct (opened && expired_entry s1); [assumption|]. cbn. assumption.
   - cbn [run]. destruct (step r s OpenDone) as [s1|]; [|discriminate].
-    destruct (expired_entry s1); [assumption|]. cbn. assumption.
+    destruct (undone s && expired_entry s1); [assumption|]. cbn. assumption.
   - cbn [run]. destruct (step r s (Tick t)); [|discriminate]. cbn. assumption.
   - cbn [run]. destruct (step r s Fire) as [s1|]; [|discriminate]. assumption.
+  - cbn [run]. destruct (step r s OFire); [|discriminate]. cbn. assumption.
   - cbn [run]. destruct (step r s Push); [|discriminate]. cbn. assumption.
   - cbn [run]. destruct (step r s Unpush); [|discriminate]. cbn. assumption.
   - destruct (ph s); try discriminate. assumption.
@@ -248,6 +446,20 @@ Proof.
   - inversion H; subst. assumption.
   - destruct (cstep r s c) as [s1|] eqn:E; [|discriminate]. eapply IH; [|eassumption]. eapply cstep_inv; eassumption.
 Qed.
+
+Lemma cstep_wshape r s c s' : WShape r s -> cstep r s c = Some s' -> WShape r s'.
+Proof. intros Sh H. apply cstep_refines in H. eapply run_wshape; eassumption. Qed.
+
+Lemma crun_wshape r : forall cs s s', WShape r s -> crun r s cs = Some s' -> WShape r s'.
+Proof.
+  induction cs as [|c cs IH]; intros s s' Sh H; cbn in H.
+  - inversion H; subst. assumption.
+  - destruct (cstep r s c) as [s1|] eqn:E; [|discriminate]. eapply IH; [|eassumption]. eapply cstep_wshape; eassumption.
+Qed.
+
+Lemma cstep_frozen r s c s' : ph s <> NotIssued -> cstep r s c = Some s' ->
+  waited s' = waited s /\ t0 s' = t0 s /\ tmo s' = tmo s /\ ph s' <> NotIssued.
+Proof. intros Pn H. apply cstep_refines in H. eapply run_frozen; eassumption. Qed.
 
 (* draining a stack of lower frames on top of [FTimeout; FResp] or [FResp] completes the call *)
 Definition lowers (n : nat) : list frame := repeat FLower n.
@@ -271,7 +483,9 @@ Proof. unfold lowers. now rewrite app_length, repeat_length. Qed.
 Lemma drain_add m a b : drain m (a + b) = drain m a ++ drain m b.
 Proof. induction a as [|a IH]; cbn; [reflexivity|]. now rewrite IH. Qed.
 
-(* Shape invariant of coarse runs: a live, uncompleted call still has its timer armed and both frames. *)
+(* Shape invariant of coarse runs: a live, uncompleted call (dispatched at Issue on an open client, or at
+   OpenDone for a call that waited for the open) still has its timer armed and both frames.  The shape of a
+   call that still waits for the open is WShape above. *)
 Definition Shape (r : Z) (s : st) : Prop :=
   ph s = Live ->
   done s <> [] \/ (exists n, stack s = lowers n ++ [FTimeout; FResp]) /\ tmr s = TArmed (ceil_r r (deadline s)).
@@ -280,18 +494,22 @@ Lemma early_same m s s' : now s' = now s -> t0 s' = t0 s -> tmo s' = tmo s -> ea
 Proof. intros A B C. unfold early, deadline. now rewrite A, B, C. Qed.
 
 Lemma pop_two r s m : ph s = Live -> stack s = [FTimeout; FResp] -> early m s = false ->
-  exists s', run r s [Pop m; Pop m] = Some s' /\ done s' = (now s, m) :: done s /\ ph s' = Live /\
-             now s' = now s /\ t0 s' = t0 s /\ tmo s' = tmo s.
+  exists s', run r s [Pop m; Pop m] = Some s' /\ done s' <> [] /\ (waited s = false -> done s' = (now s, m) :: done s) /\
+             ph s' = Live /\ now s' = now s /\ t0 s' = t0 s /\ tmo s' = tmo s.
 Proof.
-  intros P K G. cbn [run step]. rewrite P, G, K. cbn [ph stack now t0 tmo tmr done].
+  intros P K G. cbn [run step]. rewrite P, G, K. cbn [ph stack now t0 tmo tmr done waited otmr].
   rewrite (early_same m s) by reflexivity. rewrite G.
-  eexists. split; [reflexivity|]. cbn. repeat split; assumption.
+  destruct (waited s) eqn:W.
+  - eexists. split; [reflexivity|]. cbn. split; [destruct (done s); discriminate|].
+    split; [intros X; discriminate X|]. repeat split; assumption.
+  - eexists. split; [reflexivity|]. cbn. split; [discriminate|].
+    split; [intros _; reflexivity|]. repeat split; assumption.
 Qed.
 
 Lemma drain_all_complete r s m n :
   ph s = Live -> stack s = lowers n ++ [FTimeout; FResp] -> early m s = false ->
-  exists s', run r s (drain_all s m) = Some s' /\ done s' = (now s, m) :: done s /\ ph s' = Live /\
-             now s' = now s /\ t0 s' = t0 s /\ tmo s' = tmo s.
+  exists s', run r s (drain_all s m) = Some s' /\ done s' <> [] /\ (waited s = false -> done s' = (now s, m) :: done s) /\
+             ph s' = Live /\ now s' = now s /\ t0 s' = t0 s /\ tmo s' = tmo s.
 Proof.
   intros P K G. unfold drain_all. rewrite K, length_lowers. cbn [length].
   rewrite drain_add, run_app. rewrite (drain_lowers r m n s [FTimeout; FResp] P K G).
@@ -299,24 +517,54 @@ Proof.
   rewrite (early_same m s) by reflexivity. exact G.
 Qed.
 
-Lemma cstep_shape r s c s' : 0 < r -> Inv r s -> Shape r s ->
-  (forall T, c <> CIssue T false) -> c <> COpenDone ->
-  cstep r s c = Some s' -> Shape r s'.
+(* _DispatchMethod on a call that is not yet past its deadline: both frames, timer armed *)
+Lemma enter_shape r s : expired_entry (enter r s) = false -> Shape r (enter r s).
 Proof.
-  intros Hr I Sh Hno1 Hno2 H. destruct c as [T opened| |t| | | |m]; cbn [cstep] in H.
-  - destruct opened; [|exfalso; eapply Hno1; reflexivity].
-    cbn [step] in H. destruct (ph s) eqn:P; try discriminate.
+  unfold Shape, expired_entry, enter. cbv zeta. unfold deadline.
+  destruct (Z.ltb_spec (t0 s + tmo s) (now s)) as [L|L]; cbn; intros X _.
+  - destruct (Z.ltb_spec (t0 s + tmo s) (now s)); [discriminate|lia].
+  - right. split; [exists O; reflexivity|reflexivity].
+Qed.
+
+(* ... and on one that is: the TimeoutError posted on entry completes the call when it is drained *)
+Lemma enter_expired_drain r s s' : expired_entry (enter r s) = true ->
+  run r (enter r s) (drain_all (enter r s) MTimeout) = Some s' -> done s' <> [].
+Proof.
+  unfold expired_entry, enter. cbv zeta. unfold deadline, drain_all.
+  destruct (Z.ltb_spec (t0 s + tmo s) (now s)) as [L|L]; cbn [now t0 tmo stack length drain]; intros X H.
+  - cbn [run step ph stack] in H. unfold early, deadline in H. cbn [now t0 tmo waited done] in H.
+    destruct (Z.ltb_spec (now s) (t0 s + tmo s)); [lia|].
+    destruct (waited s); inversion H; subst; cbn; [destruct (done s); discriminate|discriminate].
+  - destruct (Z.ltb_spec (t0 s + tmo s) (now s)); [lia|discriminate].
+Qed.
+
+Lemma cstep_shape r s c s' : 0 < r -> Inv r s -> Shape r s -> cstep r s c = Some s' -> Shape r s'.
+Proof.
+  intros Hr I Sh H. destruct c as [T opened| |t| | | | |m].
+  - (* CIssue *)
+    cbn [cstep step] in H. destruct (ph s) eqn:P; try discriminate.
     destruct (Z.leb_spec T 0); [discriminate|].
-    set (s1 := {| now := now s; ph := WaitOpen; t0 := now s; tmo := T; stack := []; tmr := TNone; done := [] |}) in *.
-    assert (X : expired_entry (enter r s1) = false).
-    { unfold expired_entry, enter, deadline. cbn. destruct (Z.ltb_spec (now s + T) (now s)); cbn; lia. }
-    rewrite X in H. cbn in H. inversion H; subst; clear H.
-    intros _. right. unfold enter, deadline. cbn. destruct (Z.ltb_spec (now s + T) (now s)); [lia|]. cbn.
-    split; [exists O; reflexivity|reflexivity].
-  - exfalso. apply Hno2. reflexivity.
-  - cbn in H. destruct (Z.ltb_spec t (now s)); [discriminate|]. inversion H; subst; clear H.
+    destruct opened.
+    + set (s1 := {| now := now s; ph := WaitOpen; t0 := now s; tmo := T; stack := []; tmr := TNone;
+                    waited := false; otmr := TNone; done := [] |}) in *.
+      assert (X : expired_entry (enter r s1) = false).
+      { unfold expired_entry, enter, deadline. cbn. destruct (Z.ltb_spec (now s + T) (now s)); cbn; lia. }
+      rewrite X in H. cbn in H. inversion H; subst; clear H.
+      apply enter_shape. exact X.
+    + cbn in H. inversion H; subst; clear H. intros W. cbn in W. discriminate W.
+  - (* COpenDone: dispatched now unless the outer timer completed the call while it waited *)
+    cbn [cstep] in H. destruct (step r s OpenDone) as [s1|] eqn:E; [|discriminate].
+    cbn in E. destruct (ph s) eqn:P; try discriminate. unfold undone in H.
+    destruct (done s) as [|y d] eqn:Ds; inversion E; subst s1; clear E; cbn [andb] in H.
+    + destruct (expired_entry (enter r _)) eqn:X in H.
+      * intros _. left. eapply enter_expired_drain; eassumption.
+      * inversion H; subst; clear H. apply enter_shape. exact X.
+    + inversion H; subst; clear H. intros _. left. cbn. discriminate.
+  - (* CTick *)
+    cbn in H. destruct (Z.ltb_spec t (now s)); [discriminate|]. inversion H; subst; clear H.
     intros P. cbn in P. destruct (Sh P) as [D|[[n K] Tm]]; [left; exact D|right]. cbn. split; [exists n; exact K|exact Tm].
-  - destruct (step r s Fire) as [s1|] eqn:E; [|discriminate].
+  - (* CFire *)
+    cbn [cstep] in H. destruct (step r s Fire) as [s1|] eqn:E; [|discriminate].
     destruct (fire_consistent r s s1 Hr I E) as [G P1].
     pose proof (step_inv r s Fire s1 Hr I E) as I1.
     assert (F : done s1 = done s /\ stack s1 = stack s /\ ph s1 = ph s).
@@ -329,15 +577,21 @@ Proof.
       * now rewrite Fp.
       * now rewrite Fs.
       * unfold early. destruct (Z.ltb_spec (now s1) (deadline s1)); [lia|reflexivity].
-      * rewrite R in H. inversion H; subst. rewrite D. discriminate.
-  - cbn in H. destruct (ph s) eqn:P; try discriminate. inversion H; subst; clear H.
+      * rewrite R in H. inversion H; subst. exact D.
+  - (* COFire: the caller's result is complete afterwards *)
+    cbn in H. destruct (otmr s); try discriminate. destruct (now s <? dl); [discriminate|]. inversion H; subst; clear H.
+    intros _. left. cbn. destruct (done s); discriminate.
+  - (* CPush *)
+    cbn in H. destruct (ph s) eqn:P; try discriminate. inversion H; subst; clear H.
     intros _. cbn. destruct (Sh P) as [D|[[n K] Tm]]; [left; exact D|right].
     split; [exists (S n); cbn; now rewrite K|exact Tm].
-  - cbn in H. destruct (ph s) eqn:P; try discriminate. destruct (stack s) as [|f k] eqn:K0; try discriminate.
+  - (* CUnpush *)
+    cbn in H. destruct (ph s) eqn:P; try discriminate. destruct (stack s) as [|f k] eqn:K0; try discriminate.
     destruct f; try discriminate. inversion H; subst; clear H.
     intros _. cbn. destruct (Sh P) as [D|[[n K] Tm]]; [left; exact D|right].
     split; [|exact Tm]. rewrite K0 in K. destruct n as [|n]; unfold lowers in K; cbn in K; [discriminate|]. inversion K; subst. exists n. reflexivity.
-  - destruct (ph s) eqn:P; try discriminate.
+  - (* CDrain *)
+    cbn [cstep] in H. destruct (ph s) eqn:P; try discriminate.
     intros _. left.
     destruct (Sh P) as [D|[[n K] Tm]].
     + apply (run_done_nonempty r Hr _ s s' I H D).
@@ -346,40 +600,47 @@ Proof.
       * exfalso. unfold drain_all in H. rewrite K, length_lowers in H. cbn [length] in H.
         replace (n + 2)%nat with (S (n + 1)) in H by lia. cbn [drain run step] in H. rewrite P, G in H. discriminate.
       * destruct (drain_all_complete r s m n P K G) as (s2 & R & D & _).
-        rewrite R in H. inversion H; subst. rewrite D. discriminate.
+        rewrite R in H. inversion H; subst. exact D.
 Qed.
 
-Definition opened_only (cs : list clabel) : Prop :=
-  forall c, In c cs -> (forall T, c <> CIssue T false) /\ c <> COpenDone.
-
-Lemma crun_shape r : 0 < r -> forall cs s s', Inv r s -> Shape r s -> opened_only cs -> crun r s cs = Some s' -> Shape r s'.
+Lemma crun_shape r : 0 < r -> forall cs s s', Inv r s -> Shape r s -> crun r s cs = Some s' -> Shape r s'.
 Proof.
-  intros Hr. induction cs as [|c cs IH]; intros s s' I Sh Ho H; cbn in H.
+  intros Hr. induction cs as [|c cs IH]; intros s s' I Sh H; cbn in H.
   - inversion H; subst. assumption.
   - destruct (cstep r s c) as [s1|] eqn:E; [|discriminate].
-    destruct (Ho c (or_introl eq_refl)) as [A B].
-    eapply (IH s1); [eapply cstep_inv; eassumption|eapply cstep_shape; eassumption| |exact H].
-    intros c' Hin. apply Ho. now right.
+    eapply (IH s1); [eapply cstep_inv; eassumption|eapply cstep_shape; eassumption|exact H].
 Qed.
 
 Lemma shape_init r t : Shape r (init t).
 Proof. intros P. cbn in P. discriminate. Qed.
 
-(* the deadline guarantee *)
-Lemma deadline_met r t cs s : 0 < r -> opened_only cs -> crun r (init t) cs = Some s ->
-  ph s = Live -> ceil_r r (t0 s + tmo s) <= now s -> fire_enabled s = false -> done s <> [].
+(* the deadline guarantee: any issued call, whether or not the client was open when it was issued *)
+Lemma deadline_met r t cs s : 0 < r -> crun r (init t) cs = Some s ->
+  ph s <> NotIssued -> ceil_r r (t0 s + tmo s) <= now s -> fire_enabled s = false -> ofire_enabled s = false ->
+  done s <> [].
 Proof.
-  intros Hr Ho H P L F.
-  pose proof (crun_shape r Hr cs _ _ (inv_init r t) (shape_init r t) Ho H) as Sh.
-  destruct (Sh P) as [D|[_ Tm]]; [exact D|].
-  unfold fire_enabled in F. rewrite Tm in F. unfold deadline in F. lia.
+  intros Hr H Pn L F OF.
+  destruct (ph s) eqn:P; [congruence| |].
+  - (* still waiting for the open: the outer timer *)
+    pose proof (crun_wshape r cs _ _ (wshape_init r t) H) as Sh.
+    destruct (Sh P) as [D|Om]; [exact D|].
+    unfold ofire_enabled in OF. rewrite Om in OF. unfold deadline in OF. lia.
+  - (* dispatched: the timeout sink's timer *)
+    pose proof (crun_shape r Hr cs _ _ (inv_init r t) (shape_init r t) H) as Sh.
+    destruct (Sh P) as [D|[_ Tm]]; [exact D|].
+    unfold fire_enabled in F. rewrite Tm in F. unfold deadline in F. lia.
 Qed.
 
 (* ---- completion time under prompt timer service ---------------------------------------------- *)
-(* a coarse trace is prompt when the clock never moves past an armed timer's rounded deadline,
+(* a coarse trace is prompt when the clock never moves past an armed timer's rounded deadline (the timeout
+   sink's timer or, while a call waits for the open, DispatchMethodCall's outer timer),
    i.e. the timer queue runs due actions before time advances further (its C10 guarantee) *)
 Definition prompt_step (s : st) (c : clabel) : Prop :=
-  match c, tmr s with CTick t, TArmed dl => t <= dl | _, _ => True end.
+  match c with
+  | CTick t => match tmr s with TArmed dl => t <= dl | _ => True end /\
+               match otmr s with TArmed dl => t <= dl | _ => True end
+  | _ => True
+  end.
 
 Fixpoint prompt (r : Z) (s : st) (cs : list clabel) : Prop :=
   match cs with
@@ -389,108 +650,166 @@ Fixpoint prompt (r : Z) (s : st) (cs : list clabel) : Prop :=
 
 Definition OnTime (r : Z) (s : st) : Prop :=
   (forall dl, tmr s = TArmed dl -> now s <= dl) /\
-  (ph s = Live -> forall tc m, In (tc, m) (done s) -> tc <= ceil_r r (deadline s)).
+  (forall dl, otmr s = TArmed dl -> now s <= dl) /\
+  (forall tc m, In (tc, m) (done s) -> tc <= ceil_r r (deadline s)).
 
 Lemma ontime_init r t : OnTime r (init t).
-Proof. split; cbn; intros; try discriminate; contradiction. Qed.
+Proof. split; [|split]; cbn; intros; try discriminate; contradiction. Qed.
 
 Lemma run_drain_facts r m : forall n s s', run r s (drain m n) = Some s' ->
-  now s' = now s /\ t0 s' = t0 s /\ tmo s' = tmo s /\ ph s' = ph s /\
+  now s' = now s /\ t0 s' = t0 s /\ tmo s' = tmo s /\ ph s' = ph s /\ waited s' = waited s /\
   (forall x, In x (done s') -> In x (done s) \/ x = (now s, m)) /\
-  (tmr s' = tmr s \/ tmr s' = TCancelled).
+  (tmr s' = tmr s \/ tmr s' = TCancelled) /\
+  (otmr s' = otmr s \/ otmr s' = TCancelled).
 Proof.
   induction n as [|n IH]; intros s s' H; cbn [drain run] in H.
   - inversion H; subst. repeat split; auto.
   - destruct (step r s (Pop m)) as [s1|] eqn:E; [|discriminate].
-    destruct (IH _ _ H) as (A & B & C & D & F & G).
+    destruct (IH _ _ H) as (A & B & C & D & W & F & G & O).
     cbn in E. destruct (ph s) eqn:P; try discriminate.
     destruct (early m s); [discriminate|].
     destruct (stack s) as [|f k].
     + inversion E; subst. repeat split; auto; congruence.
-    + destruct f; inversion E; subst; clear E; cbn in *.
-      * repeat split; auto; try congruence.
-        intros x Hx. destruct (F x Hx) as [[X|X]|X]; auto.
-      * repeat split; auto; try congruence.
+    + destruct f.
+      * destruct (waited s) eqn:Ws; inversion E; subst; clear E; cbn in *.
+        -- repeat split; auto; try congruence.
+           intros x Hx. destruct (F x Hx) as [X|X]; auto.
+           destruct (done s); [destruct X as [X|[]]; auto|auto].
+        -- repeat split; auto; try congruence.
+           intros x Hx. destruct (F x Hx) as [[X|X]|X]; auto.
+      * inversion E; subst; clear E; cbn in *. repeat split; auto; try congruence.
         destruct G as [G|G]; rewrite G; destruct (tmr s); auto.
-      * repeat split; auto; congruence.
+      * inversion E; subst; clear E; cbn in *. repeat split; auto; congruence.
 Qed.
 
-Lemma cstep_ontime r s c s' : 0 < r -> Inv r s -> Shape r s -> OnTime r s ->
-  (forall T, c <> CIssue T false) -> c <> COpenDone -> prompt_step s c ->
-  cstep r s c = Some s' -> OnTime r s'.
+(* a complete or partial drain keeps the run on time as long as an uncompleted call is still before its
+   rounded deadline *)
+Lemma drain_ontime r m n s s' : 0 < r -> Inv r s -> OnTime r s ->
+  (done s = [] -> now s <= ceil_r r (deadline s)) ->
+  run r s (drain m n) = Some s' -> OnTime r s'.
 Proof.
-  intros Hr I Sh (A & B) Hno1 Hno2 Pr H.
-  destruct c as [T opened| |t| | | |m]; cbn [cstep] in H.
-  - destruct opened; [|exfalso; eapply Hno1; reflexivity].
-    cbn [step] in H. destruct (ph s) eqn:P; try discriminate. destruct (Z.leb_spec T 0); [discriminate|].
-    set (s1 := {| now := now s; ph := WaitOpen; t0 := now s; tmo := T; stack := []; tmr := TNone; done := [] |}) in *.
-    assert (X : expired_entry (enter r s1) = false).
-    { unfold expired_entry, enter, deadline. cbn. destruct (Z.ltb_spec (now s + T) (now s)); cbn; lia. }
-    rewrite X in H. cbn in H. inversion H; subst; clear H.
-    unfold enter, deadline. cbn. destruct (Z.ltb_spec (now s + T) (now s)); [lia|]. cbn.
-    split; cbn.
-    + intros dl0 E. inversion E; subst. pose proof (ceil_r_ge r (now s + T) Hr). lia.
-    + intros _ tc m [].
-  - exfalso. apply Hno2. reflexivity.
-  - cbn in H. destruct (Z.ltb_spec t (now s)); [discriminate|]. inversion H; subst; clear H. cbn.
-    split; cbn.
-    + intros dl0 E. unfold prompt_step in Pr. rewrite E in Pr. exact Pr.
+  intros Hr I (A & A' & B) Bd H.
+  destruct (run_drain_facts r m _ _ _ H) as (N & T0 & TM & PH & WT & DN & TMR & OTMR).
+  split; [|split].
+  - intros dl E. rewrite N. destruct TMR as [X|X]; rewrite X in E; [auto|discriminate].
+  - intros dl E. rewrite N. destruct OTMR as [X|X]; rewrite X in E; [auto|discriminate].
+  - intros tc m' Hin. unfold deadline. rewrite T0, TM. fold (deadline s).
+    destruct (done s) as [|y d] eqn:Ds.
+    + destruct (DN _ Hin) as [[]|X]. injection X as Xa Xb. subst tc. apply Bd. reflexivity.
+    + assert (D : done s <> []) by (rewrite Ds; discriminate).
+      destruct (done_single r s I D) as [x Dx].
+      rewrite (run_done_inert r Hr _ s s' x I H Dx) in Hin. rewrite <- Dx in Hin. rewrite <- Ds in B.
+      exact (B tc m' Hin).
+Qed.
+
+Lemma cstep_ontime r s c s' : 0 < r -> Inv r s -> Shape r s -> WShape r s -> OnTime r s ->
+  prompt_step s c -> cstep r s c = Some s' -> OnTime r s'.
+Proof.
+  intros Hr I Sh WSh OT Pr H. pose proof OT as (A & A' & B).
+  destruct c as [T opened| |t| | | | |m].
+  - (* CIssue *)
+    cbn [cstep step] in H. destruct (ph s) eqn:P; try discriminate. destruct (Z.leb_spec T 0); [discriminate|].
+    destruct opened.
+    + set (s1 := {| now := now s; ph := WaitOpen; t0 := now s; tmo := T; stack := []; tmr := TNone;
+                    waited := false; otmr := TNone; done := [] |}) in *.
+      assert (X : expired_entry (enter r s1) = false).
+      { unfold expired_entry, enter, deadline. cbn. destruct (Z.ltb_spec (now s + T) (now s)); cbn; lia. }
+      rewrite X in H. cbn in H. inversion H; subst; clear H.
+      unfold enter, deadline. cbn. destruct (Z.ltb_spec (now s + T) (now s)); [lia|]. cbn.
+      split; [|split]; cbn.
+      * intros dl0 E. inversion E; subst. pose proof (ceil_r_ge r (now s + T) Hr). lia.
+      * intros dl0 E. discriminate E.
+      * intros tc m [].
+    + cbn in H. inversion H; subst; clear H.
+      split; [|split]; cbn.
+      * intros dl0 E. discriminate E.
+      * intros dl0 E. inversion E; subst. pose proof (ceil_r_ge r (now s + T) Hr). lia.
+      * intros tc m [].
+  - (* COpenDone: the outer timer bounded the wait so far; from here on the timeout sink's timer does *)
+    cbn [cstep] in H. destruct (step r s OpenDone) as [s1|] eqn:E; [|discriminate].
+    pose proof (step_inv r s OpenDone s1 Hr I E) as I1.
+    pose proof (opendone_disarms_outer r s s1 E) as NoO.
+    assert (F : ph s = WaitOpen /\ now s1 = now s /\ deadline s1 = deadline s /\ done s1 = done s /\
+                (forall dl, tmr s1 = TArmed dl -> now s1 <= dl)).
+    { cbn in E. destruct (ph s) eqn:P; try discriminate. split; [reflexivity|].
+      destruct (done s) as [|y d] eqn:Ds; inversion E; subst; clear E.
+      - unfold enter. cbv zeta. unfold deadline. cbn [now t0 tmo].
+        destruct (Z.ltb_spec (t0 s + tmo s) (now s)) as [L|L]; cbn; repeat split; try reflexivity.
+        + intros dl0 X. discriminate X.
+        + intros dl0 X. inversion X; subst. pose proof (ceil_r_ge r (t0 s + tmo s) Hr). lia.
+      - cbn. repeat split; try reflexivity. intros dl0 X. discriminate X. }
+    destruct F as (Pw & N1 & DL1 & D1 & T1).
+    assert (OT1 : OnTime r s1).
+    { split; [exact T1|]. split.
+      - intros dl0 X. exfalso. exact (NoO dl0 X).
+      - intros tc m Hin. rewrite D1 in Hin. rewrite DL1. exact (B tc m Hin). }
+    destruct (undone s && expired_entry s1); [|inversion H; subst; exact OT1].
+    apply (drain_ontime r MTimeout (length (stack s1)) s1 s' Hr I1 OT1); [|exact H].
+    intros D. rewrite D1 in D. rewrite N1, DL1.
+    destruct (WSh Pw) as [D'|Om]; [congruence|]. exact (A' _ Om).
+  - (* CTick *)
+    cbn in H. destruct (Z.ltb_spec t (now s)); [discriminate|]. inversion H; subst; clear H.
+    cbn [prompt_step] in Pr. destruct Pr as [Pr1 Pr2].
+    split; [|split]; cbn.
+    + intros dl0 E. rewrite E in Pr1. exact Pr1.
+    + intros dl0 E. rewrite E in Pr2. exact Pr2.
     + exact B.
-  - destruct (step r s Fire) as [s1|] eqn:E; [|discriminate].
-    assert (F : exists dl0, tmr s = TArmed dl0 /\ dl0 <= now s /\ done s1 = done s /\ ph s1 = ph s /\
-                now s1 = now s /\ t0 s1 = t0 s /\ tmo s1 = tmo s /\ tmr s1 = TFired).
+  - (* CFire *)
+    cbn [cstep] in H. destruct (step r s Fire) as [s1|] eqn:E; [|discriminate].
+    pose proof (step_inv r s Fire s1 Hr I E) as I1.
+    assert (F : exists dl0, tmr s = TArmed dl0 /\ done s1 = done s /\ now s1 = now s /\ t0 s1 = t0 s /\
+                tmo s1 = tmo s /\ tmr s1 = TFired /\ otmr s1 = otmr s).
     { cbn in E. destruct (tmr s) as [|dl0| |]; try discriminate. destruct (Z.ltb_spec (now s) dl0); [discriminate|].
       inversion E; subst. cbn. exists dl0. repeat split; auto. }
-    destruct F as (dl0 & Tm & Due & Fd & Fp & Fn & F0 & FT & Ftm).
+    destruct F as (dl0 & Tm & Fd & Fn & F0 & FT & Ftm & Fo).
     destruct (inv_arm r s I dl0 Tm) as [Edl P].
-    destruct (run_drain_facts r MTimeout _ _ _ H) as (N & T0 & TM & PH & DN & TMR).
-    split.
-    + intros dl1 E1. destruct TMR as [X|X]; rewrite X in E1; [rewrite Ftm in E1|]; discriminate.
-    + intros _ tc m Hin. unfold deadline. rewrite T0, TM, F0, FT. destruct (DN _ Hin) as [X|X].
-      * rewrite Fd in X. apply (B P tc m X) || apply (B eq_refl tc m X).
-      * injection X as Xa Xb. specialize (A dl0 Tm). unfold deadline in Edl. lia.
-  - cbn in H. destruct (ph s) eqn:P; try discriminate. inversion H; subst; clear H.
-    split; [exact A|]. intros _ tc m0 Hin. exact (B eq_refl tc m0 Hin).
-  - cbn in H. destruct (ph s) eqn:P; try discriminate. destruct (stack s) as [|f k]; try discriminate.
-    destruct f; try discriminate. inversion H; subst; clear H.
-    split; [exact A|]. intros _ tc m0 Hin. exact (B eq_refl tc m0 Hin).
-  - destruct (ph s) eqn:P; try discriminate.
-    destruct (run_drain_facts r m _ _ _ H) as (N & T0 & TM & PH & DN & TMR).
-    split.
-    + intros dl1 E1. rewrite N. destruct TMR as [X|X]; rewrite X in E1; [auto|discriminate].
-    + intros _ tc m' Hin. unfold deadline. rewrite T0, TM.
-      destruct (Sh P) as [D|[_ Tm]].
-      * (* already completed: nothing new *)
-        destruct (done s) as [|y d] eqn:Ds; [congruence|].
-        assert (d = []).
-        { pose proof (inv_once r s I) as O. rewrite Ds in O. cbn in O. destruct d; [reflexivity|cbn in O; lia]. }
-        subst d. rewrite (run_done_inert r Hr _ s s' y I H Ds) in Hin.
-        apply (B eq_refl tc m'). exact Hin.
-      * destruct (DN _ Hin) as [X|X]; [apply (B eq_refl tc m' X)|].
-        injection X as Xa Xb. specialize (A _ Tm). unfold deadline in A. lia.
+    assert (DL : deadline s1 = deadline s) by (unfold deadline; congruence).
+    apply (drain_ontime r MTimeout (length (stack s1)) s1 s' Hr I1); [| |exact H].
+    + split; [|split].
+      * intros dl1 X. rewrite Ftm in X. discriminate X.
+      * intros dl1 X. rewrite Fo in X. rewrite Fn. exact (A' _ X).
+      * intros tc m Hin. rewrite Fd in Hin. rewrite DL. exact (B tc m Hin).
+    + intros _. rewrite Fn, DL, <- Edl. exact (A _ Tm).
+  - (* COFire *)
+    cbn in H. destruct (otmr s) as [|dl0| |] eqn:Om; try discriminate.
+    destruct (Z.ltb_spec (now s) dl0); [discriminate|]. inversion H; subst; clear H.
+    destruct (inv_oarm r s I dl0 Om) as (Edl & _). subst dl0.
+    split; [|split]; cbn.
+    + exact A.
+    + intros dl1 X. discriminate X.
+    + intros tc m Hin. change (tc <= ceil_r r (deadline s)). destruct (done s) as [|y d] eqn:Ds.
+      * destruct Hin as [X|[]]. inversion X; subst. exact (A' _ eq_refl).
+      * exact (B tc m Hin).
+  - (* CPush *)
+    cbn in H. destruct (ph s) eqn:P; try discriminate. inversion H; subst; clear H. exact OT.
+  - (* CUnpush *)
+    cbn in H. destruct (ph s) eqn:P; try discriminate. destruct (stack s) as [|f k]; try discriminate.
+    destruct f; try discriminate. inversion H; subst; clear H. exact OT.
+  - (* CDrain *)
+    cbn [cstep] in H. destruct (ph s) eqn:P; try discriminate.
+    apply (drain_ontime r m (length (stack s)) s s' Hr I OT); [|exact H].
+    intros D. destruct (Sh P) as [D'|[_ Tm]]; [congruence|]. exact (A _ Tm).
 Qed.
 
-Lemma crun_ontime r : 0 < r -> forall cs s s', Inv r s -> Shape r s -> OnTime r s -> opened_only cs ->
+Lemma crun_ontime r : 0 < r -> forall cs s s', Inv r s -> Shape r s -> WShape r s -> OnTime r s ->
   prompt r s cs -> crun r s cs = Some s' -> OnTime r s'.
 Proof.
-  intros Hr. induction cs as [|c cs IH]; intros s s' I Sh OT Ho Pr H; cbn in H.
+  intros Hr. induction cs as [|c cs IH]; intros s s' I Sh WSh OT Pr H; cbn in H.
   - inversion H; subst. assumption.
   - destruct (cstep r s c) as [s1|] eqn:E; [|discriminate].
-    destruct (Ho c (or_introl eq_refl)) as [A B]. cbn [prompt] in Pr. destruct Pr as [P1 P2]. rewrite E in P2.
-    eapply (IH s1); [eapply cstep_inv; eassumption|eapply cstep_shape; eassumption|
-                     eapply cstep_ontime; eassumption| |exact P2|exact H].
-    intros c' Hin. apply Ho. now right.
+    cbn [prompt] in Pr. destruct Pr as [P1 P2]. rewrite E in P2.
+    eapply (IH s1); [eapply cstep_inv; eassumption|eapply cstep_shape; eassumption|eapply cstep_wshape; eassumption|
+                     eapply cstep_ontime; eassumption|exact P2|exact H].
 Qed.
 
 (* completion happens by the rounded deadline when the timer queue is served promptly *)
-Lemma completes_on_time r t cs s tc m : 0 < r -> opened_only cs -> prompt r (init t) cs ->
+Lemma completes_on_time r t cs s tc m : 0 < r -> prompt r (init t) cs ->
   crun r (init t) cs = Some s -> In (tc, m) (done s) -> tc <= ceil_r r (t0 s + tmo s).
 Proof.
-  intros Hr Ho Pr H Hin.
-  pose proof (crun_ontime r Hr cs _ _ (inv_init r t) (shape_init r t) (ontime_init r t) Ho Pr H) as [_ B].
-  pose proof (crun_inv r Hr cs _ _ (inv_init r t) H) as I.
-  apply (B) with (m := m); [|exact Hin].
-  destruct (ph s) eqn:P; [| |reflexivity]; destruct (inv_idle r s I) as (_ & D & _); try congruence; rewrite D in Hin; contradiction.
+  intros Hr Pr H Hin.
+  pose proof (crun_ontime r Hr cs _ _ (inv_init r t) (shape_init r t) (wshape_init r t) (ontime_init r t) Pr H)
+    as (_ & _ & B).
+  exact (B tc m Hin).
 Qed.
 
 (* coarse runs are fine-grained runs: the fine theorems transfer *)
